@@ -30,6 +30,9 @@ CHECKS = {
     'C08': ('algebraic-law PBT over triples of dynamic values (twins, near misses, fresh values)',
             'Exploration: equivalence, total order, hash consistency, clone/owned twins, reported signature vs encoded signature over generated triples incl. NaN, signed zeros, fds.',
             'Trusted: value bridge. Known findings: NaN breaks reflexivity (keyed by a NaN-replacement classifier), owned copies of fds compare unequal.', '7/C08'),
+    'C09': ('program-generating PBT: random crates of derived type definitions compiled against the library, signature / wire value predicted by the generator\'s own table, checked by an independent reference decoder',
+            'Exploration over programs and inputs: each run generates a crate of ~55 type definitions (all derive kinds, nested over std types with built-in impls, each enum / dictionary kind also placed inside arrays, dictionaries, tuples and newtype variants), compiles it against the working tree and exercises every type with generated values: declared signature == table; bytes strictly valid for it, denote the predicted reference value, size agrees; decode(encode(v)) == v; decode(reference bytes) == v; Value / OwnedValue conversions round-trip with the table signature.',
+            'Trusted: the generator table (Rust type -> signature / reference value, written from the derive documentation), refmodel::dbus. D-Bus format only (a crate using zbus and zvariant/gvariant does not build: known finding of C35). One program per quick run, six per thorough run.', '7/C09'),
     'C10': ('bounded exhaustive enumeration over a character-class alphabet, every construction route, against independent name grammars',
             'Exploration, exhaustive within the stated bound: all strings up to 6/7 symbols over 11 character classes for 9 validated types and every construction route, plus 250..260-byte strings and UUID-like spellings; accept <=> reference grammar.',
             'Trusted: refmodel::names (written from the specification). Tolerances: org.freedesktop.DBus as unique name; PropertyName = any 1..=255-byte string (its documentation).', '7/C10'),
